@@ -476,10 +476,19 @@ Proof.
   apply (spres_bind _ J1 _); [apply spres_f1; minv | trivial | intros ac].
   apply (spres_bind _ J1 _); [destruct ac; apply spres_f1; minv | trivial | intros rt]. destruct rt; [apply spres_ret|].
   assert (Hd : spres J1 J1 (t <- gq q_check_timer;; n <- snow;;
-     match t with Some tm => when (timed_out n tm) (declare_fault_s C_CHECK_LIMIT) | None => ret tt end)).
+     match t with
+     | Some tm =>
+         when (timed_out n tm)
+           (declare_fault_s C_CHECK_LIMIT ;;;
+            l <- gets s_cfg ;;
+            when (fault_ignored l C_CHECK_LIMIT) (setq (fun q => q <| q_check_timer := Some (n, snd tm) |>)))
+     | None => ret tt
+     end)).
   { apply (spres_bind _ J1 _); [apply spres_f1; minv | trivial | intros t].
     apply (spres_bind _ J1 _); [apply spres_f1; minv | trivial | intros n].
-    destruct t as [tm|]; [|apply spres_ret]. destruct (timed_out n tm); [rewrite swhen_true; apply Hdf | rewrite swhen_false; apply spres_ret]. }
+    destruct t as [tm|]; [|apply spres_ret].
+    destruct (timed_out n tm); [rewrite swhen_true | rewrite swhen_false; apply spres_ret].
+    apply (spres_bind _ J1 _); [apply Hdf | trivial | intros _]. apply spres_f1; minv. }
   destruct pkt as [[]|] eqn:Ep; try exact Hd.
   apply (spres_bind _ J1 _); [|trivial | intros _; apply spres_f1; minv].
   intros s [H1 H2]. unfold setq, modify. cbn [fst]. split; [|exact H2].
@@ -726,12 +735,47 @@ Proof.
     destruct (get_fault_handler (l_faults l) c); [apply j2_semit_fault | apply spres_raise].
 Qed.
 
+(* F34 repair: a limit fault whose handler is IGNORE leaves the handler busy, and the procedure that declared it
+   carries on *)
+Lemma cfg_declare_fault : forall c, MInv s_cfg Any (declare_fault_s c).
+Proof. intro c. minv. Qed.
+
+Lemma jb_declare_fault_ignored : forall c s, JB s -> fault_ignored (s_cfg s) c = true -> JB (fst (declare_fault_s c s)).
+Proof.
+  intros c s HJ Hi. unfold declare_fault_s. rewrite sb_gets, sb_gq, sb_gq.
+  unfold fault_ignored in Hi.
+  destruct (q_tid (s_p s)) as [[a b]|]; [|exact HJ].
+  destruct (get_fault_handler (l_faults (s_cfg s)) c) as [h|]; [|discriminate Hi].
+  apply Z.eqb_eq in Hi. subst h.
+  change (FH_IGNORE =? FH_CANCEL) with false. change (FH_IGNORE =? FH_ABANDON) with false. cbv iota.
+  rewrite sb_ret. change (negb true) with false. cbv iota.
+  generalize (q_progress (s_p s)). intro pr.
+  revert s HJ. change (spres JB JB (semit (EvFault FH_IGNORE a b c pr))). fr.
+Qed.
+
+Lemma j2_declare_fault_then : forall c (k : SM unit), spres JB J2 k ->
+  spres JB J2 (declare_fault_s c ;;; l <- gets s_cfg ;; if fault_ignored l c then k else ret tt).
+Proof.
+  intros c k Hk s HJ.
+  pose proof (j2_declare_fault c s HJ) as H2.
+  pose proof (jb_declare_fault_ignored c s HJ) as HI.
+  pose proof (minv_state _ _ _ s (cfg_declare_fault c)) as Ec.
+  unfold bind at 1. destruct (declare_fault_s c s) as [s1 [u|e]]; cbn [fst] in *; [|exact H2].
+  rewrite sb_gets, Ec. destruct (fault_ignored (s_cfg s) c); [|exact H2].
+  apply Hk, HI. reflexivity.
+Qed.
+
 Lemma j2_positive_ack : spres JB J2 handle_positive_ack_procedures_s.
 Proof.
   unfold handle_positive_ack_procedures_s. bj fr as t. destruct t as [tm|]; [|jb2].
   bj fr as r. bj fr as n. destruct (negb (timed_out n tm)); [jb2|]. bj fr as cnt.
-  destruct (r_ack_limit r <=? cnt + 1); [apply j2_declare_fault|].
-  intros s HJ. apply JB_J2. revert s HJ. fr.
+  cbv zeta.
+  assert (Hre : spres JB J2
+    (setq (fun q => q <| q_ack_timer := Some (n, snd tm) |> <| q_ack_counter := cnt + 1 |>) ;;;
+     pr <- gq q_progress ;; ck <- checksum_calculation pr ;; prepare_eof_pdu ck)).
+  { intros s HJ. apply JB_J2. revert s HJ. fr. }
+  destruct (r_ack_limit r <=? cnt + 1); [|exact Hre].
+  apply j2_declare_fault_then. exact Hre.
 Qed.
 
 (* a NAK is served: the step at that time is remembered *)
@@ -780,9 +824,18 @@ Proof.
   end.
   destruct rt; [apply JB_J2, H1|].
   assert (Hd : J2 (fst ((t <- gq q_check_timer;; n <- snow;;
-     match t with Some tm => when (timed_out n tm) (declare_fault_s C_CHECK_LIMIT) | None => ret tt end) s1))).
+     match t with
+     | Some tm =>
+         when (timed_out n tm)
+           (declare_fault_s C_CHECK_LIMIT ;;;
+            l <- gets s_cfg ;;
+            when (fault_ignored l C_CHECK_LIMIT) (setq (fun q => q <| q_check_timer := Some (n, snd tm) |>)))
+     | None => ret tt
+     end) s1))).
   { revert s1 H1. bj fr as t. bj fr as n. destruct t as [tm|]; [|jb2].
-    destruct (timed_out n tm); [rewrite swhen_true; apply j2_declare_fault | rewrite swhen_false; jb2]. }
+    destruct (timed_out n tm); [rewrite swhen_true | rewrite swhen_false; jb2].
+    apply (j2_declare_fault_then C_CHECK_LIMIT (setq (fun q => q <| q_check_timer := Some (n, snd tm) |>))).
+    intros s2 HJ2. apply JB_J2. revert s2 HJ2. fr. }
   destruct pkt as [[]|] eqn:Ep; try exact Hd.
   rewrite sb_setq, smode_run.
   destruct H1 as ((A1 & A2 & (A3 & A4 & A5)) & HB). destruct (A4 HB) as [Hmc _].
